@@ -229,3 +229,32 @@ def shorthand(i: int, j: int, k: int) -> bool:
     """
     msg = SEPS[i] + WORDS[j] + SEPS[k] + "NEW"
     return cli._sub_msg_template(msg) == _ref_sub(msg)
+
+
+def commit_tag_argv(cfg_msg_empty: bool, m: str) -> bool:
+    """vcs.commit -> VCSAPI.tag: the tag command carries the effective tag message (CLI or config, after substitution) verbatim,
+    annotated whenever that message is non-empty, whatever the configured template is
+    pre: len(m) <= LEN and in_class(m)
+    post: _
+    """
+    from bumpver import config
+    cfg = config.Config(
+        current_version="1.2.3", version_pattern="MAJOR.MINOR.PATCH", pep440_version="1.2.3", commit_message="c",
+        tag_message="" if cfg_msg_empty else "{new_version}", tag_scope=config.TagScope.DEFAULT, pre_commit_hook="",
+        post_commit_hook="", commit=True, tag=True, push=False, is_new_pattern=True, file_patterns={})
+    stub = _SP()
+    tf = _Tempfile()
+    saved = (vcs.sp, vcs.tempfile, vcs.os)
+    vcs.sp, vcs.tempfile, vcs.os = stub, tf, _Os(tf.rec)
+    try:
+        vcs.commit(cfg, vcs.VCSAPI(TOOL), [], "1.2.4", "the commit message", m)
+    finally:
+        vcs.sp, vcs.tempfile, vcs.os = saved
+    tags = [c for c in stub.calls if c[:2] == [TOOL, "tag"]]
+    if len(tags) != 1:
+        return False
+    if m:
+        want = ["git", "tag", "--annotate", "1.2.4", "--message", m] if TOOL == "git" else ["hg", "tag", "1.2.4", "--message", m]
+    else:
+        want = [TOOL, "tag", "1.2.4"]
+    return _same(tags[0], want)
